@@ -14,7 +14,9 @@
    [stat_sim] / [obs_sim]: equality, except that the specification reports 0 for the size of a directory (in a
    FileInfo, and in every entry of a directory listing). *)
 From Avfs Require Import Base PathModel PathSpec PathProofs PathCleanProofs PathIterProofs.
-From Avfs Require Import MemFS MemFile World Posix Inv WalkBridge WalkSym WalkBudget WalkReadlink WalkRel StepEq WalkInv StepInv.
+From Coq Require Import Permutation.
+From Avfs Require Import MemFS MemFile World Posix Inv WalkBridge WalkSym WalkBudget WalkReadlink WalkRel StepEq WalkInv StepInv
+  HeapEq HeapEqSnap StepRename StepRenameDir StepHist StepCwd StepMkdirAll StepHistM StepRemoveAll StepRemoveAllEx.
 
 Theorem C01_step_stat : forall (s : fsys) (sv : sview) (cs : list str),
   step_hyps s sv -> path_ok s sv SlStat cs ->
@@ -219,4 +221,219 @@ Example C01_history_inv_example :
 Proof.
   split; [exact StepInvExamples.tree_inv|]. split; [exact StepInvExamples.tree_links_ok|].
   exact (proj1 StepInvExamples.hist_inv).
+Qed.
+
+(* ---- Rename over an existing destination: up to the ORDER of directory entries ------------------------------------------ *)
+(* [heq]: the same nodes, the entries of a directory equal up to a permutation.  It is invisible: same snapshot, same walk *)
+Theorem C01_heq_snapshot : forall (w w' : world) (vi : nat),
+  heq (f_heap (w_fs w)) (f_heap (w_fs w')) -> w_views w = w_views w' ->
+  (forall d, NoDup (map fst (children (f_heap (w_fs w)) d))) -> snapshot w' vi = snapshot w vi.
+Proof. exact snapshot_heq. Qed.
+
+Theorem C01_heq_search : forall (s s' : fsys) (v : view) (p : str) (slm : slmode),
+  fsys_heq s s' -> names_nodup (f_heap s) -> search_node s' v p slm = search_node s v p slm.
+Proof. exact search_node_heq. Qed.
+
+(* a file or symbolic link renamed over an existing file or symbolic link (another node): the implementation replaces the
+   entry in place, renameat2 removes it and appends the moved one *)
+Theorem C01_step_rename_over :
+  forall (s : fsys) (sv : sview) (wo : list str) (clo : str) (wn : list str) (cln : str) (np nc : nat),
+  step_hyps s sv -> path_ok s sv SlLstat (wo ++ [clo]) -> path_ok s sv SlLstat (wn ++ [cln]) ->
+  source_not_dir s sv (wo ++ [clo]) ->
+  klookup s sv false false (abs_path (wn ++ [cln])) = WNode np LNorm cln nc -> dest_plain s nc ->
+  (forall par k nm oc, klookup s sv false false (abs_path (wo ++ [clo])) = WNode par k nm oc -> oc <> nc) ->
+  sym_single (f_heap s) -> NoDup (map fst (children (f_heap s) np)) ->
+  let o := abs_path (wo ++ [clo]) in
+  let n := abs_path (wn ++ [cln]) in
+  fsys_heq (fst (rename s (sv_view sv) o n)) (fst (go_rename s sv o n))
+  /\ proj_res Linux (snd (rename s (sv_view sv) o n)) = snd (go_rename s sv o n).
+Proof. exact step_rename_over. Qed.
+
+(* ---- Rename of a directory ---------------------------------------------------------------------------------------------- *)
+(* the implementation's test on the resolved path STRINGS = the kernel's ancestor test on NODES, on the states of C05 *)
+Theorem C01_ancestor_iff_prefix : forall (h : heap) (u : user) (root : nat),
+  Inv_heap h -> node_is_dir h root = true -> kperm h root 1 u = true ->
+  forall (P Q : list str) (oc np : nat),
+  node_is_dir h oc = true -> dwalk h u root P = Some oc -> dwalk h u root Q = Some np ->
+  (is_ancestor (S (length h)) h root oc np = true <-> exists R, Q = P ++ R).
+Proof. exact ancestor_iff_prefix. Qed.
+
+Theorem C01_step_rename_dir_new :
+  forall (s : fsys) (sv : sview) (wo : list str) (clo : str) (wn : list str) (cln : str) (np : nat) (md : bool),
+  step_hyps s sv -> Inv_heap (f_heap s) -> path_ok s sv SlLstat (wo ++ [clo]) -> path_ok s sv SlLstat (wn ++ [cln]) ->
+  source_is_dir s sv (wo ++ [clo]) ->
+  klookup s sv false false (abs_path (wn ++ [cln])) = WNeg np cln md ->
+  let o := abs_path (wo ++ [clo]) in
+  let n := abs_path (wn ++ [cln]) in
+  (fst (rename s (sv_view sv) o n), proj_res Linux (snd (rename s (sv_view sv) o n))) = go_rename s sv o n.
+Proof. exact step_rename_dir_new. Qed.
+
+(* the history theorem with Rename of directories among the covered calls ([covered_x] = [covered] or that) *)
+Theorem C01_history_inv_x : forall (vi : nat) (cs : list call) (w : world) (sw : sworld),
+  Inv w -> absw w vi sw -> us_admin (v_user (sv_view (sw_sv sw))) = true -> links_ok (f_heap (w_fs w)) ->
+  call_ok_run_x vi sw cs ->
+  Forall2 obs_sim (snd (impl_run w cs)) (snd (spec_run sw cs))
+  /\ absw (fst (impl_run w cs)) vi (fst (spec_run sw cs))
+  /\ Inv (fst (impl_run w cs)) /\ links_ok (f_heap (w_fs (fst (impl_run w cs)))).
+Proof. exact history_inv_x. Qed.
+
+(* ---- the working directory: Chdir, Getwd, relative paths ----------------------------------------------------------------- *)
+(* MemFS keeps the working directory as a path STRING, the kernel as a NODE.  [absc w vi sw d]: same file system; view [vi]
+   of the world is the specification's view with working-directory string [d]; and [d] is a directory walk (link-free,
+   searchable) from the root to the specification's working-directory node ([cwd_rel]). *)
+Theorem C01_getwd : forall (h : heap) (u : user) (root : nat),
+  Inv_heap h -> node_is_dir h root = true -> kperm h root 1 u = true ->
+  forall (bs : list str) (cwdn : nat), Forall good_comp bs -> dwalk h u root bs = Some cwdn ->
+  kperm h cwdn 1 u = true /\ is_ancestor (S (length h)) h root root cwdn = true
+  /\ path_of (S (length h)) h root cwdn [] = abs_path bs.
+Proof. exact getwd_agree. Qed.
+
+Theorem C01_chdir_rel : forall (s : fsys) (sv : sview) (p : str),
+  step_hyps s sv -> resolvedx s sv SlEval p ->
+  match chdir s (sv_view sv) p, k_chdir s sv p with
+  | inl r, inl e => proj_res Linux r = SErr e
+  | inr d, inr c => exists bs, Forall good_comp bs /\ d = abs_path bs
+                               /\ dwalk (f_heap s) (v_user (sv_view sv)) (v_root (sv_view sv)) bs = Some c
+  | _, _ => False
+  end.
+Proof. exact chdir_rel. Qed.
+
+(* one step: the absolute-path calls of [covered_x] and the resolved-path calls of [covered_res] (relative paths enter
+   through C04_resolve_rel), provided the working-directory string still denotes the working-directory node afterwards
+   (it does not when that directory is removed or an ancestor renamed: listed finding C01-CWD-STRING); Chdir; Getwd *)
+Theorem C01_step_cwd : forall (w : world) (vi : nat) (sw : sworld) (d : str) (c : call),
+  absc w vi sw d -> covered_c vi sw d c ->
+  obs_sim (snd (impl_step_proj w c)) (snd (spec_step true sw c))
+  /\ exists d', absc (fst (impl_step_proj w c)) vi (fst (spec_step true sw c)) d'.
+Proof. exact step_world_c. Qed.
+
+Theorem C01_history_cwd : forall (vi : nat) (cs : list call) (w : world) (sw : sworld),
+  absc w vi sw (cwd_of w vi) -> covered_c_run vi w sw cs ->
+  Forall2 obs_sim (snd (impl_run w cs)) (snd (spec_run sw cs))
+  /\ absc (fst (impl_run w cs)) vi (fst (spec_run sw cs)) (cwd_of (fst (impl_run w cs)) vi).
+Proof. exact history_c. Qed.
+
+Example C01_history_cwd_example :
+  Forall2 obs_sim (snd (impl_run StepExamples.w_tree StepCwdExamples.hc)) (snd (spec_run StepExamples.sw_tree StepCwdExamples.hc))
+  /\ cwd_of (fst (impl_run StepExamples.w_tree StepCwdExamples.hc)) 0 = abs_path [WalkSymExamples.s_d]
+  /\ sv_cwd (sw_sv (fst (spec_run StepExamples.sw_tree StepCwdExamples.hc))) = 1.
+Proof. exact StepCwdExamples.hc_agree. Qed.
+
+(* ---- MkdirAll ------------------------------------------------------------------------------------------------------------------- *)
+(* MkdirAll "/done/rest" where [done] is a directory walk from the view root to [par] (no symbolic link met, [dir_at]) and
+   the first component of [rest] is missing in [par] (or [rest] is empty: everything exists): MemFS (one walk, then the
+   creation loop along the path cursor) and os.MkdirAll (stat; recursion on the parent prefix; mkdir) produce the same
+   file system - the chain [mk_chain] of new directories below [par] - and the same answer.  Premises that name listed
+   deviations: the type bit of [par] (Go tests the mode bit, MemFS the node kind) and set-group-id inheritance.  Paths
+   that meet a symbolic link are outside (listed finding C01-MKDIRALL-LINK for the dangling/looping ones). *)
+Theorem C01_step_mkdir_all : forall (s : fsys) (sv : sview) (perm : N) (done rest : list str) (par : nat),
+  let v := sv_view sv in
+  v_os v = Linux -> us_admin (v_user v) = true ->
+  Forall good_comp (done ++ rest) ->
+  dir_at s v done par ->
+  (forall c r, rest = c :: r -> alookup str_eqb c (children (f_heap s) par) = None) ->
+  has (m_mode (meta_of (f_heap s) par)) MODE_DIR = true ->
+  (rest <> [] -> is_setgid (m_mode (meta_of (f_heap s) par)) = false) ->
+  length (done ++ rest) < SEARCH_FUEL ->
+  let p := abs_path (done ++ rest) in
+  (fst (mkdir_all s v p perm), proj_res Linux (snd (mkdir_all s v p perm))) = go_mkdir_all (S (length p)) s sv p perm
+  /\ go_mkdir_all (S (length p)) s sv p perm = (fst (mk_chain s v par rest perm), SOk).
+Proof. exact step_mkdir_all. Qed.
+
+(* the chain is there afterwards: the walk down [done ++ rest] ends in the last new directory, which is empty *)
+Theorem C01_mkdir_all_chain : forall (v : view) (perm : N), v_os v = Linux -> us_admin (v_user v) = true ->
+  forall (rest : list str) (s : fsys) (done : list str) (dn : nat),
+  dir_at s v done dn ->
+  (forall c r, rest = c :: r -> alookup str_eqb c (children (f_heap s) dn) = None) ->
+  let s' := fst (mk_chain s v dn rest perm) in
+  let n' := snd (mk_chain s v dn rest perm) in
+  dir_at s' v (done ++ rest) n'
+  /\ (rest <> [] -> children (f_heap s') n' = [] /\ is_setgid (m_mode (meta_of (f_heap s') n')) = false).
+Proof. exact mk_chain_at. Qed.
+
+Example C01_step_mkdir_all_example :
+  let p := abs_path ([WalkSymExamples.s_d; WalkSymExamples.s_e] ++ [WalkSymExamples.s_x; WalkSymExamples.s_missing; WalkSymExamples.s_d]) in
+  (fst (mkdir_all WalkSymExamples.tree_fs WalkSymExamples.adminv p 493),
+   proj_res Linux (snd (mkdir_all WalkSymExamples.tree_fs WalkSymExamples.adminv p 493)))
+  = go_mkdir_all (S (length p)) WalkSymExamples.tree_fs (WalkSymExamples.sv_of WalkSymExamples.adminv) p 493
+  /\ go_mkdir_all (S (length p)) WalkSymExamples.tree_fs (WalkSymExamples.sv_of WalkSymExamples.adminv) p 493
+     = (fst (mk_chain WalkSymExamples.tree_fs WalkSymExamples.adminv 2
+               [WalkSymExamples.s_x; WalkSymExamples.s_missing; WalkSymExamples.s_d] 493), SOk).
+Proof. exact StepMkdirAllExamples.mkdir_all_instance. Qed.
+
+(* the history theorem with MkdirAll among the covered calls ([covered_m] = [covered_x] or that) *)
+Theorem C01_history_inv_m : forall (vi : nat) (cs : list call) (w : world) (sw : sworld),
+  Inv w -> absw w vi sw -> us_admin (v_user (sv_view (sw_sv sw))) = true -> links_ok (f_heap (w_fs w)) ->
+  call_ok_run_m vi sw cs ->
+  Forall2 obs_sim (snd (impl_run w cs)) (snd (spec_run sw cs))
+  /\ absw (fst (impl_run w cs)) vi (fst (spec_run sw cs))
+  /\ Inv (fst (impl_run w cs)) /\ links_ok (f_heap (w_fs (fst (impl_run w cs)))).
+Proof. exact history_inv_m. Qed.
+
+Example C01_history_inv_m_example :
+  Forall2 obs_sim (snd (impl_run StepExamples.w_tree StepHistMExamples.hm)) (snd (spec_run StepExamples.sw_tree StepHistMExamples.hm))
+  /\ absw (fst (impl_run StepExamples.w_tree StepHistMExamples.hm)) 0 (fst (spec_run StepExamples.sw_tree StepHistMExamples.hm))
+  /\ Inv (fst (impl_run StepExamples.w_tree StepHistMExamples.hm))
+  /\ links_ok (f_heap (w_fs (fst (impl_run StepExamples.w_tree StepHistMExamples.hm)))).
+Proof. exact StepHistMExamples.hm_inv. Qed.
+
+(* ---- RemoveAll --------------------------------------------------------------------------------------------------------------------- *)
+(* RemoveAll "/w/cl" by the administrator on a state of C05, for every outcome of the walk (a missing path, an error, a
+   file, a link, an empty or a non-empty directory): the same answer, and final file systems that agree on every node
+   except link nodes that no directory lists any more ([geq]: MemFS delete()s every node of the subtree - a link's target
+   is blanked -, the specification unlinks the top entry and drops the subtree, leaving unlisted links as they are).
+   The heaps are NOT equal in general ([C01_remove_all_example], third clause). *)
+Theorem C01_step_remove_all : forall (s : fsys) (sv : sview) (w : list str) (cl : str),
+  step_hyps s sv -> Inv_heap (f_heap s) -> sym_single (f_heap s) -> path_ok s sv SlLstat (w ++ [cl]) ->
+  let p := abs_path (w ++ [cl]) in
+  proj_res Linux (snd (remove_all s (sv_view sv) p)) = snd (go_remove_all s sv p)
+  /\ fsys_geq (fst (remove_all s (sv_view sv) p)) (fst (go_remove_all s sv p))
+  /\ (forall i, nkind (get (f_heap (fst (go_remove_all s sv p))) i) = nkind (get (f_heap s) i)).
+Proof. exact step_remove_all. Qed.
+
+(* the heart: MemFS's recursion (entry by entry, depth first) is simulated by the specification's drop of the subtree *)
+Theorem C01_remove_all_tree : forall (h : heap) (u : user) (par c : nat) (cl : str),
+  us_admin u = true -> (forall d, ~ dreachp h d d) -> sym_single h -> InvConseq.maxlen h c (S (length h)) ->
+  In (cl, c) (children h par) -> node_is_dir h c = true ->
+  exists hi', remove_all_rec (S (length h)) h u c = (hi', None)
+    /\ geq (delete_node (remove_child hi' par cl) c) (drop_tree (S (length h)) (remove_child h par cl) c)
+    /\ get hi' par = get h par.
+Proof. exact top_sim. Qed.
+
+(* [geq] heaps have the same snapshot, and every walk gives the same result on both *)
+Theorem C01_geq_snapshot : forall (wi ws : world) (vi : nat),
+  geq (f_heap (w_fs wi)) (f_heap (w_fs ws)) -> w_views wi = w_views ws ->
+  (forall v, nth_error (w_views ws) vi = Some v -> node_is_dir (f_heap (w_fs ws)) (v_root v) = true) ->
+  snapshot wi vi = snapshot ws vi.
+Proof. exact geq_snapshot. Qed.
+
+Theorem C01_geq_search : forall (si ss : fsys) (v : view) (p : str) (slm : slmode),
+  fsys_geq si ss -> f_vols ss = [] -> get (f_heap si) (v_root v) = get (f_heap ss) (v_root v) ->
+  search_node si v p slm = search_node ss v p slm.
+Proof. exact search_node_geq. Qed.
+
+(* one step of the two step functions: equal answers, [geq] file systems, equal snapshots *)
+Theorem C01_step_world_remove_all : forall (w : world) (vi : nat) (sw : sworld) (ww : list str) (cl : str),
+  absw w vi sw -> step_hyps (sw_fs sw) (sw_sv sw) -> Inv_heap (f_heap (sw_fs sw)) -> sym_single (f_heap (sw_fs sw)) ->
+  path_ok (sw_fs sw) (sw_sv sw) SlLstat (ww ++ [cl]) ->
+  let c := CRemoveAll vi (abs_path (ww ++ [cl])) in
+  snd (impl_step_proj w c) = snd (spec_step true sw c)
+  /\ fsys_geq (w_fs (fst (impl_step_proj w c))) (sw_fs (fst (spec_step true sw c)))
+  /\ sw_sv (fst (spec_step true sw c)) = sw_sv sw
+  /\ snapshot (fst (impl_step_proj w c)) vi = snapshot (with_fs w (sw_fs (fst (spec_step true sw c)))) vi.
+Proof. exact step_world_remove_all. Qed.
+
+Example C01_remove_all_example :
+  (snd (impl_step_proj StepExamples.w_tree StepRemoveAllExamples.ra) = snd (spec_step true StepExamples.sw_tree StepRemoveAllExamples.ra)
+   /\ fsys_geq (w_fs (fst (impl_step_proj StepExamples.w_tree StepRemoveAllExamples.ra)))
+               (sw_fs (fst (spec_step true StepExamples.sw_tree StepRemoveAllExamples.ra)))
+   /\ sw_sv (fst (spec_step true StepExamples.sw_tree StepRemoveAllExamples.ra)) = sw_sv StepExamples.sw_tree
+   /\ snapshot (fst (impl_step_proj StepExamples.w_tree StepRemoveAllExamples.ra)) 0
+      = snapshot (with_fs StepExamples.w_tree (sw_fs (fst (spec_step true StepExamples.sw_tree StepRemoveAllExamples.ra)))) 0)
+  /\ snd (impl_step_proj StepExamples.w_tree StepRemoveAllExamples.ra) = SOk
+  /\ f_heap (w_fs (fst (impl_step_proj StepExamples.w_tree StepRemoveAllExamples.ra)))
+     <> f_heap (sw_fs (fst (spec_step true StepExamples.sw_tree StepRemoveAllExamples.ra))).
+Proof.
+  split; [exact StepRemoveAllExamples.ra_instance|].
+  split; [exact StepRemoveAllExamples.ra_answer|exact StepRemoveAllExamples.ra_heaps_differ].
 Qed.
